@@ -81,6 +81,19 @@ claim("C13", "model_checking",
       "TLA+ spec + TLC model checking; state-graph paths replayed as real connections through a relay built from service.Config",
       "DESIGN.md 4/C13", "tcprelay")
 
+claim("C06", "exploration",
+      "specs/Wire/Lattice.tla models every network-facing parser as a straight-line program of length checks, slice accesses and reads over a "
+      "field-class lattice (valid, boundary, illegal enum, too long, truncated at/around every field, absent; an inner-cut class for the AEAD "
+      "protocols) for 17 entry points, and continues through routing (15 router configurations forcing each port/domain/prefix representation), "
+      "dial, reply (Proceed/Abort with every result code) and relay; TLC checks InBounds/TruncRejects/RouterTotal and prints the cases. Each case "
+      "is concretised into bytes (several seeded concretisations), fed to the real entry point over a scripted fragmenting connection or in the "
+      "relay's buffer layout, and continued through the real router, client encoders, replies and copy; a second layer sends the server-side cases "
+      "over loopback into a real service.Manager and probes every listener with a well-formed request. Children isolate crashes.",
+      "Structure-aware enumeration, not coverage-guided byte fuzzing: byte strings outside the class lattice are reached only through the seeded "
+      "random fill; HTTP and DNS wire parsing are library code modelled only by what makes them fail; source port 0, GeoIP, TLS listeners, tproxy excluded.",
+      "TLA+ parser/lattice spec + TLC case enumeration; model-derived byte cases through the real entry points, router, replies and relays in child processes",
+      "DESIGN.md 4/C06", "lattice")
+
 NA = {}
 
 def main():
